@@ -1,8 +1,8 @@
 """Extra observer for harness.w_obs (registered through VERIF_OBS_EXTRA=harness.w_unionobs): decode payloads through
 the union alias / discriminator metadata the GENERATOR emitted, with the converter bundled in the emitted package.
 
-job (in addition to w_obs' id/root/pkg): {"want": ["unions"], "alias": "Pet", "field_holder": "HolderF",
-  "list_holder": "HolderL", "names": {class name: 1-based variant index}, "cases": [{"cid", "payload": tagged tree}]}
+job (in addition to w_obs' id/root/pkg): {"want": ["unions"], "alias": "Pet", "positions": [names from POSITIONS],
+  "names": {class name: 1-based variant index}, "cases": [{"cid", "payload": tagged tree}]}
 observation: {"alias_repr": str, "res": [{"cid", "pos", "out", "chosen", "ckind", "reenc", "ekind"}]}
 
 Must not import pyopenapi_gen nor harness.core (w_obs blocks the generator on purpose).
@@ -96,28 +96,73 @@ def kind_of_value(r: Any, classes: dict[type, int]) -> tuple[int, str]:
     return 0, "other:" + type(r).__name__
 
 
+# The POSITION through which a union value is reached is a dimension of the family.  One table, shared with the
+# concretiser (harness/c14.py::union_doc emits exactly these schemas): position -> (root schema, body template with the
+# payload at "$P", path from the decoded root to the union value; a str step is an attribute of a dataclass or a key).
+POSITIONS: dict[str, tuple[str, Any, list]] = {
+    "top": ("Pet", "$P", []),                                   # the alias itself (response root)
+    "field": ("Hfield", {"u": "$P"}, ["u"]),                    # u: $ref Pet
+    "list": ("Hlist", {"items": ["$P"]}, ["items", 0]),         # items: inline array of $ref Pet
+    "nlist": ("Hnlist", {"items": ["$P"]}, ["items", 0]),       # items: $ref PetList (NAMED array of $ref Pet)
+    "nlist_top": ("PetList", ["$P"], [0]),                      # the named array alias as a root
+    "map": ("Hmap", {"m": {"k": "$P"}}, ["m", "k"]),            # m: inline additionalProperties $ref Pet
+    "nmap": ("Hnmap", {"m": {"k": "$P"}}, ["m", "k"]),          # m: $ref PetMap (NAMED map of $ref Pet)
+    "rows": ("Hrows", {"rows": [["$P"]]}, ["rows", 0, 0]),      # rows: array of arrays of $ref Pet
+    "opt": ("Hopt", {"u": "$P"}, ["u"]),                        # u: $ref Pet, not required
+    "olist": ("Hopt", {"items": ["$P"]}, ["items", 0]),         # items: inline array, not required
+}
+BASE_POSITIONS = ["top", "field", "list"]
+EXTRA_POSITIONS = ["nlist", "nlist_top", "map", "nmap", "rows", "opt", "olist"]
+
+
+def fill(template: Any, payload: Any) -> Any:
+    if template == "$P":
+        return payload
+    if isinstance(template, dict):
+        return {k: fill(v, payload) for k, v in template.items()}
+    if isinstance(template, list):
+        return [fill(v, payload) for v in template]
+    return template
+
+
+def walk(r: Any, path: list) -> Any:
+    for step in path:
+        if isinstance(step, int):
+            if not isinstance(r, list) or len(r) != 1:
+                raise RuntimeError("ListShapeError")
+            r = r[step]
+        elif dataclasses.is_dataclass(r) and step in {f.name for f in dataclasses.fields(r)}:
+            r = getattr(r, step)
+        else:
+            r = r[step]  # dict or generated map wrapper
+    return r
+
+
 def decode_cases(job: dict, cc: Any, models: Any) -> list[dict]:
-    alias = getattr(models, job["alias"])
-    hf = getattr(models, job["field_holder"])
-    hl = getattr(models, job["list_holder"])
     classes = {getattr(models, n): i for n, i in job["names"].items() if hasattr(models, n)}
     res = []
+
+    def root_cause(payload: Any, own: str) -> str:
+        """An Optional[List[...]] wrapper re-raises only 'no variant matched' and hides why the item failed: when the very
+        same payload is also rejected by the alias itself, that error kind is the observation's error kind."""
+        try:
+            cc.structure_from_dict(payload, getattr(models, POSITIONS["top"][0]))
+        except Exception as e:  # noqa: BLE001
+            return err_kind(e)
+        return own
+
     for c in job["cases"]:
         payload = from_tree(c["payload"])
-        for pos in job.get("positions", ["top", "field", "list"]):
+        for pos in job.get("positions", BASE_POSITIONS):
+            root, template, path = POSITIONS[pos]
             out: dict[str, Any] = {"cid": c["cid"], "pos": pos}
             try:
-                if pos == "top":
-                    r = cc.structure_from_dict(payload, alias)
-                elif pos == "field":
-                    r = cc.structure_from_dict({"u": payload}, hf).u
-                else:
-                    lst = cc.structure_from_dict({"items": [payload]}, hl).items
-                    if not isinstance(lst, list) or len(lst) != 1:
-                        raise RuntimeError("ListShapeError")
-                    r = lst[0]
+                r = walk(cc.structure_from_dict(fill(template, payload), getattr(models, root)), path)
             except Exception as e:  # noqa: BLE001
-                out.update({"out": "err", "chosen": 0, "ckind": "-", "reenc": {"t": "null", "v": 0}, "ekind": err_kind(e)})
+                ek = err_kind(e)
+                if pos != "top" and ek == "no_variant":
+                    ek = root_cause(payload, ek)
+                out.update({"out": "err", "chosen": 0, "ckind": "-", "reenc": {"t": "null", "v": 0}, "ekind": ek})
                 res.append(out)
                 continue
             chosen, ckind = kind_of_value(r, classes)
